@@ -39,7 +39,7 @@ LayoutTab == [ver \in VerSet |-> LayoutOf(ver)]
 \* string lengths (model name, texture file names -- the two strings of the object model): -1 = short default / 300
 StrLens == {0, 1, 260, 261, 1024}
 M2CaseS(tag, cards, ver, kf, floats, nlen, tlen) ==
-  [ kind |-> "m2", slice |-> tag, namelen |-> nlen, texlen |-> tlen, alias |-> 0, kfmask |-> IF kf THEN 7 ELSE 0, ver |-> ver, vn |-> VerNum(ver), kf |-> kf, floats |-> floats,
+  [ kind |-> "m2", slice |-> tag, namelen |-> nlen, texlen |-> tlen, alias |-> 0, kfmask |-> IF kf THEN 7 ELSE 0, save |-> FALSE, ver |-> ver, vn |-> VerNum(ver), kf |-> kf, floats |-> floats,
     card |-> [sec \in M2Secs |-> cards[DimOf(sec)]],
     convs |-> Versions,
     hsize |-> LayoutTab[ver].hsize, hdrpos |-> LayoutTab[ver].hdrpos, elem |-> LayoutTab[ver].elem,
@@ -77,6 +77,8 @@ Presence == { WithPattern(M2Case("presence", AnimShape, ver, TRUE, "normal"), 0,
 \* number of embedded views {0,1,2,4} x every source version (each case is converted to all 5 targets through both APIs)
 ViewCounts == { M2Case("views", [j \in 1..ND |-> IF Dims[j] = "views" THEN nv ELSE IF Dims[j] = "vertices" THEN 1 ELSE 0], ver, FALSE, "normal") :
                   nv \in {0, 1, 2, 4}, ver \in VerSet }
+\* save(path) slice: these cases are additionally saved to a path that is absent / holds a shorter / a longer file
+SaveCases == { [M2Case("save", AllOf(c), ver, TRUE, "normal") EXCEPT !.save = TRUE] : c \in {1, 3}, ver \in VerSet }
 NDraws == IF Thorough THEN 3000 ELSE 120
 LenSeq == <<-1, 0, 1, 260, 261, 1024, -1, -1>>
 Draw(q) == WithPattern(M2CaseS("random", [j \in 1..ND |-> Cards[(Rnd(q, j, 1) % 3) + 1]], VerAt(Rnd(q, 0, 2)),
@@ -91,7 +93,7 @@ SkinLayoutOf(fmt) == [ hsize |-> HeaderSize(fmt, 264),
                        hdrpos |-> [sec \in SkinSecs |-> HdrPos(fmt, 264, sec)],
                        elem |-> [sec \in SkinSecs |-> RecBytes(fmt, sec, 264)] ]
 SkinCase(tag, fmt, cards, ver) ==
-  [ kind |-> "skin", slice |-> tag, layout |-> fmt, ver |-> ver, card |-> [sec \in SkinSecs |-> cards[sec]],
+  [ kind |-> "skin", slice |-> tag, layout |-> fmt, ver |-> ver, save |-> (\A sec \in SkinSecs : cards[sec] = cards["triangles"]), card |-> [sec \in SkinSecs |-> cards[sec]],
     hsize |-> SkinLayoutOf(fmt).hsize, hdrpos |-> SkinLayoutOf(fmt).hdrpos, elem |-> SkinLayoutOf(fmt).elem,
     order |-> SkinOrder ]
 SkinCards == [SkinSecs -> {0, 1, 3}]
@@ -106,12 +108,12 @@ Skins == { SkinCase("skin", fmt, f, IF fmt = "skin_old" THEN "WotLK" ELSE ver) :
 \* ---- anim files: format x sections x bones per section x key-frame data ----------------------------------
 \* presence pattern over the bone table: bit i of mask = bone i carries key frames (all 8 patterns over 3 bones)
 MasksOf(nb) == IF nb = 0 THEN {0} ELSE IF nb = 1 THEN {0, 1} ELSE 0..7
-Anims == { [ kind |-> "anim", slice |-> "anim", format |-> fm, nsec |-> ns, nbones |-> nb, mask |-> mk, data |-> (mk # 0),
+Anims == { [ kind |-> "anim", slice |-> "anim", format |-> fm, nsec |-> ns, nbones |-> nb, mask |-> mk, data |-> (mk # 0), save |-> (ns = 3 /\ mk \in {0, 1, 5}),
              hsize |-> 20 + 12 * ns, entrypos |-> [j \in 1..ns |-> 20 + 12 * (j - 1)] ] :
              fm \in {"modern", "legacy"}, ns \in {0, 1, 3}, nb \in {0, 1, 3}, mk \in 0..7 } \ {c2 \in {} : TRUE}
 AnimsOk == {c2 \in Anims : c2.mask \in MasksOf(c2.nbones) /\ (c2.nsec > 0 \/ (c2.nbones = 0 /\ c2.mask = 0))}
 
-Cases == SetToSeq(Uniform) \o SetToSeq(Strings) \o SetToSeq(Aliased) \o SetToSeq(Presence) \o SetToSeq(ViewCounts) \o SetToSeq(Singles) \o SetToSeq(Pairs) \o SetToSeq(Draws) \o SetToSeq(Skins) \o SetToSeq(AnimsOk)
+Cases == SetToSeq(Uniform) \o SetToSeq(Strings) \o SetToSeq(Aliased) \o SetToSeq(Presence) \o SetToSeq(ViewCounts) \o SetToSeq(SaveCases) \o SetToSeq(Singles) \o SetToSeq(Pairs) \o SetToSeq(Draws) \o SetToSeq(Skins) \o SetToSeq(AnimsOk)
 ASSUME ndJsonSerialize(IOEnv.CASES, Cases)
 ASSUME PrintT(<<"GENERATED", Len(Cases), Cardinality(Uniform), Cardinality(Singles), Cardinality(Pairs), Cardinality(Draws), Cardinality(Skins), Cardinality(AnimsOk)>>)
 
